@@ -1,6 +1,6 @@
 --------------------------- MODULE DirectionScenes ---------------------------
 (* C13: Init enumerates the configuration space of the sweep
-       axis x direction x polarisation class x profile x resolution x beam kind                 (192 scenes)
+       axis x direction x polarisation class x profile x resolution x beam kind x switch        (576 scenes)
    and the phase machine  Ramp -> Steady  runs over ABSTRACT observations of a total-field/scattered-field plane:
    the plane carries an electric current sheet (from the incident H, radiates amplitude e to BOTH sides with equal
    sign) and a magnetic current sheet (from the incident E, radiates amplitude h with OPPOSITE signs to the two
@@ -13,17 +13,19 @@
    Invariant Directional is the statement.  Negative instances: Variant = "dir_ignored" (the magnetic sheet keeps the
    "+" orientation for direction "-"), "half_step_dropped" (the half-step Yee time offset between the two sheets is
    dropped: phase error pi/period, i.e. 1197 / 898 units at 15 / 20 cells per wavelength at Courant number 0.5716),
-   "h_sign" (magnetic sheet injected with the wrong sign).                                                  *)
+   "h_sign" (magnetic sheet injected with the wrong sign), "switched_half_step_dropped" (the half step is dropped only on
+   the code path of sources with a non-default on/off switch).                                              *)
 EXTENDS DirectionDefs, TLC
 CONSTANTS Variant, RampSteps, GaussShare
 VARIABLES cfg, phase, ramp, pf, pb
 vars == << cfg, phase, ramp, pf, pb >>
 U == 10000
 Sgn(d) == IF d = "+" THEN 1 ELSE -1
-Mismatch(res) == IF Variant = "half_step_dropped" THEN (IF res = 15 THEN 1197 ELSE 898)
+HalfStepLost == Variant = "half_step_dropped" \/ (Variant = "switched_half_step_dropped" /\ cfg.switch # "on")
+Mismatch(res) == IF HalfStepLost THEN (IF res = 15 THEN 1197 ELSE 898)
                  ELSE (IF res = 15 THEN 12 ELSE 6)
 \* residuals TLC enumerates: every value up to the table entry (a dropped half step is a definite phase error)
-Residuals(res) == IF Variant = "half_step_dropped" THEN {Mismatch(res)} ELSE 0..Mismatch(res)
+Residuals(res) == IF HalfStepLost THEN {Mismatch(res)} ELSE 0..Mismatch(res)
 \* orientation with which the magnetic sheet is injected
 HSign == CASE Variant = "dir_ignored" -> 1
            [] Variant = "h_sign" -> 0 - Sgn(cfg.dir)
@@ -53,7 +55,7 @@ Directional == phase = "Steady" =>
     /\ pb <= (pf - 1) \div (IF cfg.beam = "uniform" THEN 1000 ELSE 10)
 ForwardCarriesPower == phase = "Steady" => pf > (U * U)          \* more than a quarter of the ideal (2U)^2
 PhaseMonotone == [][phase = "Steady" => phase' = "Steady"]_vars
-ConfigCount == Cardinality(Configs) = 192
+ConfigCount == Cardinality(Configs) = 576
 ASSUME ConfigCount
 ASSUME Ppb \div UniformBound = 1000 /\ Ppb \div GaussBound = 10
 =============================================================================
